@@ -23,7 +23,7 @@ TIERS = {
     "quick": {"runs": 1200, "max_wall": 240, "minimise_s": 25, "chunk": 25},
     "thorough": {"runs": 40000, "max_wall": 3000, "minimise_s": 60, "chunk": 100},
 }
-FAULT_KINDS = ["EIO", "ENOSPC (short write)", "EACCES", "ETIMEDOUT (network file system)", "directory not writable during one attempt (save refused without raising)", "mutation during serialisation (schedule)", "mutation between write and flag clear",
+FAULT_KINDS = ["NOMEM (a failing allocation: MemoryError, not an OSError, out of a file operation of the save)", "EIO", "ENOSPC (short write)", "EACCES", "ETIMEDOUT (network file system)", "directory not writable during one attempt (save refused without raising)", "mutation during serialisation (schedule)", "mutation between write and flag clear",
                "stop() at the instant a scheduled save fails (threaded): stop's own save is the next attempt"]
 REAL = ["mysensors.task (_schedule_factory of SyncTasks and AsyncTasks, stop)", "mysensors.persistence", "pickle / json serialisers", "pump, reader, handlers"]
 STUBS = ["threading.Timer -> SimTimer", "asyncio loop clock and executor (kernel controlled threads)", "file system (SimFS)", "serial port / socket"]
@@ -33,7 +33,7 @@ REQUIRED_PROBES = ["attempts_failed", "save_overlapped_mutation", "attempts_afte
 WINDOW_NAMES = {"save_sensors", "_save_json", "_save_pickle", "_perform_file_action", "__getstate__", "default", "_iterencode",
                 "_iterencode_dict", "_iterencode_list", "schedule_save", "save_on_schedule", "logic", "alert", "handle_set",
                 "handle_presentation", "add_sensor", "add_child_sensor", "update_child_value", "handle_sketch_name", "handle_battery_level"}
-KINDS = ["EIO", "ENOSPC", "EACCES", "ETIMEDOUT", "RODIR"]
+KINDS = ["EIO", "ENOSPC", "EACCES", "ETIMEDOUT", "RODIR", "NOMEM"]
 
 
 def window(code):
